@@ -11,5 +11,7 @@ CONSTANTS
   MaxDials = 1
   MaxCalls = 1
   MaxStore = 0
+  CtxMode = "ignored"
+  MaxStalls = 0
   Tails = FALSE
 INVARIANTS Emit RunAgrees
